@@ -56,7 +56,7 @@ def run(ctx):
     # the regenerated functions themselves, run by the driver on the same responses (validates the function translator and the
     # hand-written declarations of the cosmwasm_std types)
     opsx = ["intorespx staking,stargate,cosmwasm_2_0 " + o[len("intoresp "):] for o in ops]
-    modelx = c.run_driver(opsx)
+    modelx = c.run_driver_x(ctx, "svx_bridge", opsx)
     nx = c.diff_streams(ctx, "L3-into-response-regenerated", opsx, canon, modelx)
     ctx.cov["streams"]["L3-into-response-regenerated"] = {"evaluations": len(opsx), "distinct_nontrivial": len(set(opsx)), "disagreements": nx,
         "what": "Extracted.Bridge.Response.into_response (regenerated from source, all features on) vs the real IntoResponse"}
@@ -82,7 +82,7 @@ def run(ctx):
     impl2 = c.run_lines(exe_min, ops2)
     opsx2 = ["intorespx staking " + o[len("intoresp "):] for o in ops2]
     nx2 = c.diff_streams(ctx, "L3-into-response-regenerated-default-features", opsx2,
-                         [("err unknown-variant" if x.startswith("err Generic error: Unknown message variant") else x) for x in impl2], c.run_driver(opsx2))
+                         [("err unknown-variant" if x.startswith("err Generic error: Unknown message variant") else x) for x in impl2], c.run_driver_x(ctx, "svx_bridge", opsx2))
     ctx.cov["streams"]["L3-into-response-regenerated-default-features"] = {"evaluations": len(opsx2), "distinct_nontrivial": len(set(opsx2)), "disagreements": nx2,
         "what": "the regenerated function with feat = {staking} vs the real library built with sylvia's default features"}
     bad2 = 0
